@@ -52,6 +52,18 @@ PROPS["C20"] = dict(
 )
 
 
+PROPS["C14"] = dict(
+    lean_targets=["Chihaya.Props.C14"],
+    props_files=["Chihaya/Props/C14.lean"],
+    streams=[dict(name="C14", quick=12000, thorough=400000)],
+    rule="cases: real clientapproval/torrentapproval NewHook + HandleAnnounce/HandleScrape on generated list configurations (empty, singleton, many, "
+         "duplicates, both lists, entries of wrong length / odd length / non-hex / upper-case) and near-miss peer IDs / infohashes "
+         "(listed id with and without dash, shifted by one byte, last byte or one bit off); non-trivial = every case reaching a decision or refusal, distinct op lines",
+    trusted=["modelled not verified: yaml decoding of the option lists, encoding/hex (modelled in Approval.hexDecode and compared through the stream)"],
+    assumptions=["peer IDs and infohashes are 20 bytes (enforced by the frontends, C06/C07)"],
+)
+
+
 def run_gen(name, repo, lean, work, goenv):
     """regenerate lean/Chihaya/Gen/<Name>.lean from the current source"""
     tr = os.path.join(work, "tr")
@@ -106,7 +118,7 @@ def context_of(stream, ops, i):
     return list(reversed(ctx))
 
 
-STATELESS = {"benc", "vi", "cfg"}
+STATELESS = {"benc", "vi", "cfg", "appr"}
 
 
 def oracle(pid, stream, op, impl, model):
